@@ -24,8 +24,8 @@ import (
 
 	"github.com/tsawler/tabula"
 	"github.com/tsawler/tabula/docx"
-	"github.com/tsawler/tabula/odt"
 	"github.com/tsawler/tabula/model"
+	"github.com/tsawler/tabula/odt"
 	"github.com/tsawler/tabula/rag"
 
 	"verifharness/fw"
